@@ -52,6 +52,10 @@ def run(R):
                      "GRAPH arm recurses with the compiled graph term")
     R.rule("C01-R6", "the two SELECT finalizers agree: whether rows are grouped depends on both the GROUP BY list and the presence "
                      "of aggregates, in both; and the modifier order is aggregate, order, distinct, limit")
+    R.rule("C01-R8", "duplicate elimination is total and keyed on the whole item: the merged default graph (several FROM graphs) and "
+                     "DISTINCT decide `already seen` for EVERY item by inserting its full key (subject, predicate, object / every "
+                     "variable-value pair of the row) into the seen-set; nothing is emitted on a path that skipped the test, except "
+                     "under `there is at most one source graph`")
     R.rule("C01-R7", "plan memo completeness (shared with C02-R1): two different sub-plans of one query never share a memo entry")
     r1(R)
     r2(R)
@@ -60,6 +64,7 @@ def run(R):
     r5(R)
     r6(R)
     r7(R)
+    r8(R)
 
 
 def r1(R):
@@ -406,3 +411,214 @@ def r7(R):
         o["key"] = o["key"].replace("C02-R1|", "C01-R7|", 1)
     R.rules = saved
     R.rules["C01-R7"] = "plan memo completeness (shared with C02-R1): two different sub-plans of one query never share a memo entry"
+
+
+# ---------------------------------------------------------------- R8 duplicate elimination
+
+from lib import pipeline as P
+
+
+def _dedup_sites(prog):
+    out = []
+    for b in prog.bodies.values():
+        if b.crate != "kolibrie" or not (b.file.endswith("execution/engine.rs") or b.file.endswith("execute_query.rs")):
+            continue
+        if "::tests::" in b.key:
+            continue
+        for c in b.calls():
+            if c.name() == "insert" and len(c.args) == 2 and "HashSet" in (c.pretty or ""):
+                out.append((b, c))
+    return out
+
+
+def _len_guard_cut_edges(b):
+    """edges (switch block -> target) on which `some collection has more than one element` holds; a bypass of the seen-test is
+    harmless only where these edges are NOT taken"""
+    cuts = set()
+    for bb, t in b.terms():
+        if t["t"] != "switch":
+            continue
+        for tgt, cd in G.edge_conditions(b, bb):
+            if cd.get("kind") != "cmp":
+                continue
+            n = G.normalize_cmp(b, cd)
+            if n is None:
+                continue
+            op, x, y = n
+
+            def is_len(o):
+                oo = b.origin(o, stop_named=False)
+                return oo[0] == "call" and oo[1].name() == "len"
+            cx, cy = F.const_int(x), F.const_int(y)
+            multi = False
+            if is_len(x) and cy is not None:
+                multi = (op == "Gt" and cy >= 1) or (op == "Ge" and cy >= 2) or (op == "Ne" and cy == 1 and False)
+            if is_len(y) and cx is not None:
+                multi = multi or (op == "Lt" and cx >= 1) or (op == "Le" and cx >= 2)
+            single = False
+            if is_len(x) and cy is not None:
+                single = (op == "Le" and cy <= 1) or (op == "Lt" and cy <= 2) or (op == "Eq" and cy <= 1)
+            if is_len(y) and cx is not None:
+                single = single or (op == "Ge" and cx <= 1) or (op == "Gt" and cx <= 2) or (op == "Eq" and cx <= 1)
+            if not single:
+                # anything that is not provably `at most one` is treated as `may be several`
+                cuts.add((bb, tgt, "maybe-multi"))
+            else:
+                cuts.add((bb, tgt, "single"))
+    return cuts
+
+
+def r8(R):
+    prog = R.prog
+    sites = _dedup_sites(prog)
+    R.floor("C01-R8", "seen-set insertions in the executor and the finalizers", len(sites), 4)
+    for b, c in sorted(sites, key=lambda x: (x[0].key, x[1].ln or 0)):
+        R.saw(b)
+        if b.is_closure:
+            # filter / retain predicate: the closure's verdict is the insert's result on every path
+            defs0 = b.defs().get(0, [])
+            direct = len(defs0) == 1 and defs0[0][0] == "call" and defs0[0][2] is c
+            if not direct:
+                direct = all((d[0] == "call" and d[2] is c) or (d[0] == "assign" and d[3]["rv"] == "use" and b.alias_root(d[3]["op"]) == c.dest["l"])
+                             for d in defs0) and bool(defs0)
+            R.ob("C01-R8", "verdict:%s" % b.short, "the predicate of %s keeps an item iff its key was newly inserted (no path decides without the seen-set)"
+                 % b.short, direct, where=b.where(c.ln),
+                 detail=None if direct else "some path returns a verdict that is not the result of seen.insert(key): duplicates survive (or rows vanish) on it")
+            # key completeness: key built from the whole item
+            ko = b.origin(c.args[1], stop_named=False)
+            names, roots = P.flat(P.tree(b, c.args[1], stop_named=False))
+            trunc = [n for n in names if n in ("take", "skip", "step_by", "filter", "take_while", "skip_while", "nth", "first", "last", "find", "keys", "values")]
+            from_item = any(r["k"] == "root" and r["local"] == 2 for r in roots) or (ko[0] == "place" and _root_is_param(b, ko[1]["l"], 2))
+            by_columns = False
+            if not from_item:
+                # shape B: the key looks every projected column up in the row: map(|column| row.get(column))
+                for n2 in P_calls(P.tree(b, c.args[1], stop_named=False)):
+                    if n2.name() == "map" and len(n2.args) == 2:
+                        o2 = b.origin(n2.args[1], stop_named=False)
+                        rv2 = o2[1] if o2[0] == "rv" else None
+                        if rv2 is None and o2[0] == "place":
+                            d2 = b.single_def(o2[1]["l"])
+                            rv2 = d2[3] if d2 and d2[0] == "assign" else None
+                        if rv2 is not None and rv2["rv"] == "aggregate" and rv2.get("ak") == "closure":
+                            caps_row = any(_root_is_param(b, (F.op_place(o) or {"l": -1})["l"], 2) for o in rv2["ops"])
+                            cl2 = prog.bodies.get(rv2.get("closure"))
+                            looks_up = cl2 is not None and any(ic.name() in ("get", "get_key_value") for ic in cl2.calls())
+                            if caps_row and looks_up:
+                                by_columns = True
+                from_item = by_columns
+            R.ob("C01-R8", "key:%s" % b.short, "the seen-key of %s is computed from the whole item (pipeline %s)" % (b.short, names), from_item and not trunc,
+                 where=b.where(c.ln), detail=None if (from_item and not trunc) else "a key that leaves out part of the row / item merges distinct solutions")
+            # for row keys: the map closure pairs variable and value
+            for n2 in P_calls(P.tree(b, c.args[1], stop_named=False)):
+                if n2.name() == "map" and len(n2.args) == 2 and not by_columns:
+                    from c19 import closure_family_calls
+                    key, inner = closure_family_calls(prog, b, n2.args[1])
+                    cl = prog.bodies.get(key) if key else None
+                    if cl is not None:
+                        comps = set()
+                        for (bb, where, kind, pl) in cl.uses().get(2, []):
+                            if pl is not None:
+                                for e in pl["p"]:
+                                    if e["k"] == "field" and not e.get("adt"):
+                                        comps.add(e["i"])
+                                        break
+                        R.ob("C01-R8", "pair:%s" % b.short, "the DISTINCT key of %s contains variable and value of every binding (components read: %s)"
+                             % (b.short, sorted(comps)), comps >= {0, 1}, where=cl.where())
+            continue
+        # loop form
+        drv = P.loop_driver(b, c.bb)
+        if drv is None:
+            R.ob("C01-R8", "loop:%s" % b.short, "the seen-test of %s sits in the loop over the items it filters" % b.short, False, where=b.where(c.ln))
+            continue
+        h, blocks, t = drv
+        effects = [x for x in b.calls() if x.bb in blocks and x is not c and (x.name() in ("match_quad", "push", "extend", "insert") or
+                                                                              (x.key or "").startswith("kolibrie::"))
+                   and not b.dominates(x.bb, c.bb)]
+        effects = [x for x in effects if x.name() not in ("query_graph", "next", "into_iter", "bound_scan_keys")]
+        R.ob("C01-R8", "effects:%s" % b.short, "%s emits through a call inside the filtered loop (found %s)" % (b.short, sorted({x.name() for x in effects})),
+             len(effects) >= 1, where=b.where(c.ln))
+        cuts = _len_guard_cut_edges(b)
+        multi_edges = {(bb, tgt) for bb, tgt, kind in cuts if kind == "maybe-multi"}
+        single_sw = {bb for bb, tgt, kind in cuts if kind == "single"}
+        for x in effects:
+            # is x reachable from the loop header within the loop without passing the insert block, while `several sources` may hold?
+            seen, work = set(), [h]
+            hit = False
+            while work:
+                k = work.pop()
+                if k in seen or k not in blocks or k == c.bb:
+                    continue
+                seen.add(k)
+                if k == x.bb:
+                    hit = True
+                    break
+                for s2 in b.succ(k):
+                    if k in single_sw and (k, s2) in multi_edges:
+                        continue        # this edge is only taken when there are several sources; bypass edges are the other ones
+                    work.append(s2)
+            # a bypass edge out of a `len <= 1` switch is fine; every other bypass is a violation
+            ok = not hit or _bypass_only_single(b, h, blocks, c.bb, x.bb, cuts)
+            R.ob("C01-R8", "total:%s:%s" % (b.short, x.name()), "in %s every item reaches `%s` only after its key went through seen.insert" % (b.short, x.name()),
+                 ok, where=b.where(x.ln), detail=None if ok else "a path skips the seen-test although several FROM graphs may hold the same triple: "
+                 "the merged default graph then yields it once per graph")
+        # the key covers subject, predicate and object of the item
+        ko = b.origin(c.args[1], stop_named=False)
+        flds = set()
+        rv = ko[1] if ko[0] == "rv" else None
+        if rv is None and ko[0] == "place":
+            d = b.single_def(ko[1]["l"])
+            rv = d[3] if d and d[0] == "assign" else None
+        if rv is not None and rv["rv"] == "aggregate":
+            for o in rv["ops"]:
+                oo = b.origin(o, stop_named=False)
+                if oo[0] == "place":
+                    flds |= {e["n"] for e in oo[1]["p"] if e["k"] == "field"}
+        R.ob("C01-R8", "key:%s" % b.short, "the seen-key of %s is the whole triple (fields %s)" % (b.short, sorted(flds)),
+             {"subject", "predicate", "object"} <= flds, where=b.where(c.ln))
+
+
+def _bypass_only_single(b, h, blocks, ins_bb, eff_bb, cuts):
+    """every path header -> effect that avoids the insert takes an edge on which `at most one source` holds"""
+    single_edges = {(bb, tgt) for bb, tgt, kind in cuts if kind == "single"}
+    if not single_edges:
+        return False
+    # whole-function search (the guard may be evaluated before the loop): from entry to effect avoiding insert and avoiding single edges
+    seen, work = set(), [0]
+    while work:
+        k = work.pop()
+        if k in seen or k == ins_bb:
+            continue
+        seen.add(k)
+        if k == eff_bb:
+            return False
+        for s2 in b.succ(k):
+            if (k, s2) in single_edges:
+                continue
+            work.append(s2)
+    return True
+
+
+def _root_is_param(b, l, want, depth=0):
+    if depth > 10:
+        return False
+    if l == want:
+        return True
+    d = b.single_def(l)
+    if d and d[0] == "assign":
+        for p2, kind in F.rv_places(d[3]):
+            if _root_is_param(b, p2["l"], want, depth + 1):
+                return True
+    if d and d[0] == "call" and d[2].args:
+        p2 = F.op_place(d[2].args[0])
+        if p2 is not None:
+            return _root_is_param(b, p2["l"], want, depth + 1)
+    return False
+
+
+def P_calls(node):
+    out = []
+    if node["k"] == "call":
+        out.append(node["call"])
+        for i in node["in"]:
+            out.extend(P_calls(i))
+    return out
